@@ -166,6 +166,15 @@ def csibling(chain_id, level, tag):
 
 
 @m.memento_function(version="c1")
+def rebased(chain_id, level, under):
+    """Hands on the partition chain(chain_id, level) returns after declaring chain(chain_id, under) as its merge parent."""
+    REC.hit("rebased", chain_id, level, under)
+    part = chain(chain_id, level)
+    part._merge_parent = chain(chain_id, under)
+    return part
+
+
+@m.memento_function(version="c1")
 def stage(chain_id, level, kind):
     """Returns a partition that holds the partition chain(chain_id, level) returns as one of its values."""
     REC.hit("stage", chain_id, level, kind)
